@@ -7,7 +7,9 @@ TRACE_MODULE = 'Trace_IggyTopic'
 MSG = 61   # bytes per 16-byte-payload message; a persisted batch adds 24
 
 FAMILIES = {'C15': ['limit'], 'C16': ['counts', 'limit'], 'C17': ['select', 'rotate']}
-LABELS = {'C15': ('C15.',), 'C16': ('C16.',), 'C17': ('C17.',)}
+# (C15: the limit is enforced on the size the topic reports; in a limited topic a reported size that is not the stored size
+#  means the limit is not enforced as configured, whatever the gate then does)
+LABELS = {'C15': ('C15.', 'C16.size', 'C16.topic_sum'), 'C16': ('C16.',), 'C17': ('C17.',)}
 
 GEN = {
     # family: MC constants (sizes in message units), scenario parameters
@@ -168,6 +170,8 @@ def attribute(prop, scn, events_bad):
     out = []
     for i, (ev, labels) in sorted(events_bad.items()):
         for lab in labels:
+            if prop == 'C15' and lab[0].startswith('C16.') and not scn.get('limit_bytes'):
+                continue
             if lab[0].startswith('X.') or any(lab[0].startswith(p) for p in LABELS[prop]):
                 out.append((i, ev, lab))
             elif prop == 'C17' and lab[0] == 'C01.cur':
